@@ -1027,3 +1027,21 @@ pub fn run(tier: Tier) -> i32 {
     ];
     rep.finish()
 }
+
+
+/// replay helpers
+pub fn replay_small(g: &Graph) -> Vec<(String, String)> {
+    let mut acc = check_small(g, 4);
+    if g.n == 4 {
+        acc = acc.merge(check_perms4(g));
+    }
+    acc.violations.into_iter().map(|(k, (_, v))| (k, v.message)).collect()
+}
+
+pub fn replay_large(fam: &str, size: usize) -> Vec<(String, String)> {
+    check_big(fam, size).violations.into_iter().map(|(k, (_, v))| (k, v.message)).collect()
+}
+
+pub fn replay_threshold() -> Vec<(String, String)> {
+    check_threshold_unions().violations.into_iter().map(|(k, (_, v))| (k, v.message)).collect()
+}
